@@ -9,7 +9,7 @@ from koda_validate import Invalid, Valid
 from .. import gen as G
 from ..build import HarnessError
 from ..corr import Case, drive, observe
-from ..lang import N, P, Some, freeze
+from ..lang import N, P, Some, coq, freeze
 from .C03 import _canon
 from .common import generic_replay, run_families, std_case
 
@@ -82,7 +82,9 @@ def fp_tree(rng: random.Random, depth: int, lazy_n: int = 0):
                    (G.C_DERIVED2, "b"): [("AlwaysValid",), ("Scalar", ("KInt",), None, [], [], [])],
                    (G.C_SLOTSUB, "b"): [("AlwaysValid",), ("Scalar", ("KInt",), None, [], [], [])],
                    (G.C_NAMED, "y"): [("AlwaysValid",), ("Scalar", ("KStr",), None, [("Strip",)], [], [])],
-                   (G.C_FACTORY, "b"): [("AlwaysValid",), ("ListV", ("AlwaysValid",), [], [], None)]}
+                   (G.C_FACTORY, "b"): [("AlwaysValid",), ("ListV", ("AlwaysValid",), [], [], None)],
+                   (G.C_NAMED2, "y"): [("AlwaysValid",), ("Scalar", ("KStr",), None, [("Strip",)], [], [])],
+                   (G.C_NAMED2, "z"): [("AlwaysValid",), ("Scalar", ("KInt",), None, [], [], [])]}
         schema = [P(G.S(nm), P(rng.choice(dflt_ok[(cid, nm)]) if (cid, nm) in dflt_ok else sub(), req)) for nm, req in flds]
         return ("ClassV", (rk,), N(cid), schema, obj(), None, rng.random() < 0.4, None)
     if r < 0.82:
@@ -100,6 +102,9 @@ def fp_tree(rng: random.Random, depth: int, lazy_n: int = 0):
 def strip_user_coercers(t):
     """gen_classv may add a no-coerce coercer; those are built-in and fine."""
     return t
+
+
+INT_ = ("Scalar", ("KInt",), None, [], [], [])
 
 
 def cases(tier: str, rng: random.Random) -> List[Case]:
@@ -120,6 +125,43 @@ def cases(tier: str, rng: random.Random) -> List[Case]:
             c2 = std_case(v, c1.obs[1], m, lazy=lazy, tag="b:refed")
             c2.first_input = x
             out.append(c2)
+    # instances holding other instances / opaque objects: accepted as they are, and again when fed back
+    for v, x in G.instance_cases(rng):
+        for m in ("sync", "async"):
+            c1 = std_case(v, x, m, tag="a:instances")
+            try:
+                observe(c1)
+            except HarnessError:
+                continue
+            out.append(c1)
+            if c1.obs and c1.obs[0] == "OValid":
+                c2 = std_case(v, c1.obs[1], m, tag="a:instances-refed")
+                c2.first_input = x
+                out.append(c2)
+    # uniqueness over rows that come in as lists of mappings and go out as tuples of mappings, and over records that
+    # are rebuilt in schema order
+    ROW = ("NTupleV", [("IsDictV",), INT_], None, Some(("CoTupleOrList",)))
+    UROW = ("UTupleV", ("IsDictV",), [], [], Some(("CoTupleOrList",)))
+    REC = ("DictAnyV", [P(G.S("x"), INT_), P(G.S("y"), INT_)], None, None, False)
+    d1 = ("VDict", [P(G.S("x"), G.I(1)), P(G.S("y"), G.I(2))])
+    d1p = ("VDict", [P(G.S("y"), G.I(2)), P(G.S("x"), G.I(1))])
+    d2 = ("VDict", [P(G.S("x"), G.I(1)), P(G.S("y"), G.I(3))])
+    for v, xs in ((("ListV", ROW, [("PUniqueItems",)], [], None), [[("VList", [d1, G.I(1)]), ("VList", [d2, G.I(2)])], [("VList", [d1, G.I(1)]), ("VList", [d1, G.I(1)])]]),
+                  (("ListV", UROW, [("PUniqueItems",)], [], None), [[("VList", [d1]), ("VList", [d2, d1])], [("VTuple", [d1])]]),
+                  (("UTupleV", REC, [("PUniqueItems",)], [], Some(("CoTupleOrList",))), [[d1, d2], [d1, d1p], [d1p, d2], [d1]]),
+                  (("ListV", REC, [("PUniqueItems",)], [], None), [[d1, d1p], [d1, d2], [d2, d1p, d1]])):
+        for x in xs:
+            for m in ("sync", "async"):
+                c1 = std_case(v, ("VList", x), m, tag="a:unique-rows")
+                try:
+                    observe(c1)
+                except HarnessError:
+                    continue
+                out.append(c1)
+                if c1.obs and c1.obs[0] == "OValid":
+                    c2 = std_case(v, c1.obs[1], m, tag="a:unique-rows-refed")
+                    c2.first_input = ("VList", x)
+                    out.append(c2)
     # unions over a dataclass and its subclass, dataclasses with extra instance state
     INT = ("Scalar", ("KInt",), None, [], [], [])
     def cls_v(cid, strict=False):
@@ -199,7 +241,22 @@ def nontrivial(c: Case) -> bool:
 
 
 def run(tier: str, rng: random.Random, proof_ok: bool) -> dict:
-    return run_families("C17", cases(tier, rng), rng, oracle, nontrivial)
+    rep = run_families("C17", cases(tier, rng), rng, oracle, nontrivial)
+    # a case on which model and implementation already disagree about the *first* run is a broken
+    # correspondence in its own right; the recorded finding (signature container-predicate-on-payload)
+    # explains second runs only and must not absorb it
+    shown = 0
+    for c, model in rep.get("mismatches", []):
+        try:
+            r = oracle(c)
+        except Exception:  # noqa
+            r = None
+        if r and r["signature"] == "C17:container-predicate-on-payload" and shown < 2:
+            shown += 1
+            rep["violations"].append({"kind": "correspondence", "signature": None,
+                                      "what": f"correspondence family 'C17' no longer checks: model and implementation differ on the first run of case tag={c.tag} mode={c.mode}",
+                                      "case": c.to_json(), "model_outcome": model, "observed_outcome": coq(c.obs)})
+    return rep
 
 
 def replay(path: str) -> int:
